@@ -168,7 +168,10 @@ def o1(ctx):
                 ("stays-when-ess-low", z3.Implies(ESS(bc) < tgt, r == bc)),
                 ("ess-floor", z3.Implies(ESS(bc) >= tgt, ESS(r) >= tgt))]
 
-    ctx.verify("", RW, "Reweighter._find_beta_upper_limit", setup, post, loops={0: LoopSpec(inv)},
+    def variant(v):
+        return ("halving", to_z3(v["beta_high"], "real") - to_z3(v["beta_low"], "real"), v.attr("self.BETA_TOLERANCE"))
+
+    ctx.verify("", RW, "Reweighter._find_beta_upper_limit", setup, post, loops={0: LoopSpec(inv, variant=variant if ctx.prop == "C18" else None)},
                registry=registry_b(False), extras=EXTRAS, replayer="c05_schedule")
 
 
@@ -201,8 +204,11 @@ def o2(ctx, dynamic):
         return [("range", z3.And(info["lo"] <= b, b <= info["hi"])),
                 ("aux-belongs-to-returned-beta", aux == AUXf(b))]
 
+    def variant(v):
+        return ("halving", to_z3(v["beta_max"], "real") - to_z3(v["beta_min"], "real"), v.attr("self.BETA_TOLERANCE"))
+
     ctx.verify("dynamic" if dynamic else "ess", RW, "Reweighter._find_beta_bisection", setup, post,
-               loops={0: LoopSpec(inv)}, registry=registry_b(dynamic), extras=EXTRAS, replayer="c05_schedule")
+               loops={0: LoopSpec(inv, variant=variant if ctx.prop == "C18" else None)}, registry=registry_b(dynamic), extras=EXTRAS, replayer="c05_schedule")
 
 
 # --------------------------------------------------------------------------- _finalize_iteration
